@@ -186,6 +186,8 @@ def _wordwise_semantic(crate, I, b, tr, backs):
                 return pos_of(v[2])
             if isinstance(v, tuple) and v and v[0] == "ref":
                 return pos_of(v[1])
+            if v in comp:
+                return arr(comp[v])  # the item component itself: a reference to the current position's word
             return None
 
         body = evs[li:]
@@ -559,7 +561,7 @@ def check(col, prog, tier, profile, fixture=None):
                 if e.kind == "call" and e.extra.get("name") == "map":
                     r = e.args[0]
                     okr = r[0] == "agg" and r[1][1].endswith("ops::Range") and r[2][0] == mk_int(0) and r[2][1] in (("bin", "Mul", ("gparam", "N"), mk_int(W)), ("bin", "Mul", mk_int(W), ("gparam", "N")), ("bin", "Shl", ("gparam", "N"), mk_int(LOGW)))
-        cl = crate.closures_of(fb)
+        cl = util.closures_with_helpers(crate, fb, helpers)
         tests = any(any((t["fn"].get("name") == "test") for bb, t in c.calls()) for c in cl)
         key = "%s|all-bits" % fk(fb)
         if not (okr and tests) and fmt_bodies:
@@ -577,7 +579,7 @@ def check(col, prog, tier, profile, fixture=None):
                 evs = st.event_list()
                 li = max(k for k, e in enumerate(evs) if e.kind == "loop")
                 ts = [e for e in evs[li:] if e.kind == "call" and e.extra.get("name") == "test"]
-                ws = [e for e in evs[li:] if e.kind == "call" and e.extra.get("name") in ("write_char", "push")]
+                ws = [e for e in evs[li:] if e.kind == "call" and e.extra.get("name") in ("write_char", "push", "write_str", "push_str")]
                 if len(ts) != 1 or len(ws) != 1:
                     okl = False
                     continue
@@ -589,6 +591,9 @@ def check(col, prog, tier, profile, fixture=None):
                         truth = (f[0] == "eq") == bool(f[2])
                 ch = ws[0].args[1]
                 chv = ch[1] if ch[0] == "int" else None
+                for s_ in subterms(ch):
+                    if s_[0] == "cst" and str(s_[1]).strip('"') in ("0", "1") and len(str(s_[1]).strip('"')) == 1:
+                        chv = 48 + int(str(s_[1]).strip('"'))
                 if not rng or truth is None or chv != (49 if truth else 48):
                     okl = False
                 seen_t = seen_t or truth is True
